@@ -2,7 +2,8 @@
     Each theorem is closed by [exact] and followed by [Print Assumptions]. *)
 From Coq Require Import List Arith Bool ZArith Reals Permutation.
 From Celer Require Import Base.Num Base.NumR Base.NumF C18.Algorithms C18.Specs C18.ArrayLemmas C18.SearchProofs
-  C18.IntProofs C18.HeapsortProofs C18.IndexProofs C18.Grids C18.GridProofs C18.GridWitness C18.GridFlocq.
+  C18.IntProofs C18.HeapsortProofs C18.IndexProofs C18.Grids C18.GridProofs C18.GridWitness C18.GridFlocq
+  C18.RangeImpl C18.RangeImplProofs C18.Span C18.SpanProofs C18.Math C18.MathProofs C18.MathWitness.
 Import ListNotations.
 
 (** ** celeritas::sort (heap sort): for every strict weak order and every array
@@ -110,6 +111,110 @@ Theorem C18_arith_nth : forall n v s k, k < n -> nth k (arith n v s) 0%Z = (v + 
 Proof. exact arith_nth. Qed.
 Print Assumptions C18_arith_nth.
 
+(** ** Range.hh / RangeImpl.hh on machine integers ([Signed w] / [Unsigned w] counters with
+    explicit two's-complement wrap-around; [cap] = number of loop iterations observed) *)
+Theorem C18_Range_spec : forall ct a b cap, (0 < width ct)%Z -> in_range ct a -> in_range ct b -> (a <= b)%Z ->
+  Z.to_nat (b - a) <= cap ->
+  range_elems cap ct a b = arith (Z.to_nat (b - a)) a 1 /\
+  (Range_empty a b = true <-> a = b) /\
+  ((b - a <= ct_max ct)%Z -> Range_size ct a b = (b - a)%Z /\
+     ((a < b)%Z -> Range_back ct a b = (b - 1)%Z /\ Range_front a = a)).
+Proof. exact Range_spec. Qed.
+Print Assumptions C18_Range_spec.
+
+Theorem C18_Range_step_pos_spec : forall ct a b s cap, (0 < width ct)%Z ->
+  in_range ct a -> in_range ct b -> (a <= b)%Z -> (0 < s <= ct_max ct)%Z ->
+  ((a < b)%Z -> (a + Z.of_nat (n_pos a b s) * s <= ct_max ct)%Z) -> n_pos a b s <= cap ->
+  StepRange_elems cap (Range_step_signed ct a b s) = arith (n_pos a b s) a s.
+Proof. exact Range_step_pos_spec. Qed.
+Print Assumptions C18_Range_step_pos_spec.
+
+Theorem C18_Range_step_unsigned_pos_spec : forall w a b s cap, (0 < w)%Z ->
+  in_range (Unsigned w) a -> in_range (Unsigned w) b -> (a <= b)%Z -> (0 < s <= ct_max (Unsigned w))%Z ->
+  ((a < b)%Z -> (a + Z.of_nat (n_pos a b s) * s <= ct_max (Unsigned w))%Z) -> n_pos a b s <= cap ->
+  StepRange_elems cap (Range_step_unsigned (Unsigned w) a b s) = arith (n_pos a b s) a s.
+Proof. exact Range_step_unsigned_pos_spec. Qed.
+Print Assumptions C18_Range_step_unsigned_pos_spec.
+
+Theorem C18_Range_step_neg_spec : forall w a b s cap, (0 < w)%Z ->
+  in_range (Signed w) a -> in_range (Signed w) b -> (a <= b)%Z -> (- 2 ^ (w - 1) <= s < 0)%Z ->
+  (ct_min (Signed w) <= b + (Z.of_nat (n_neg a b s) + 1) * s)%Z -> n_neg a b s <= cap ->
+  StepRange_elems cap (Range_step_signed (Signed w) a b s) = arith (n_neg a b s) (b + s) s.
+Proof. exact Range_step_neg_spec. Qed.
+Print Assumptions C18_Range_step_neg_spec.
+
+(** a negative step on an UNSIGNED range of length >= |s| is empty, not the reversed range *)
+Theorem C18_Range_step_neg_unsigned_empty : forall w a b s cap, (0 < w)%Z ->
+  in_range (Unsigned w) a -> in_range (Unsigned w) b -> (a <= b)%Z -> (s < 0)%Z -> (- s <= b - a)%Z ->
+  StepRange_elems cap (Range_step_signed (Unsigned w) a b s) = [].
+Proof. exact Range_step_neg_unsigned_empty. Qed.
+Print Assumptions C18_Range_step_neg_unsigned_empty.
+
+(** ... and on a shorter one it yields values below [a]: range(3u, 3u).step(-1) = 2, 1, 0 *)
+Theorem C18_Range_step_neg_unsigned_junk_refuted :
+  StepRange_elems 10 (Range_step_signed (Unsigned 32) 3 3 (-1)) = [2; 1; 0]%Z /\
+  StepRange_elems 10 (Range_step_signed (Unsigned 32) 3 5 (-3)) = [2]%Z.
+Proof. exact Range_step_neg_unsigned_junk. Qed.
+Print Assumptions C18_Range_step_neg_unsigned_junk_refuted.
+
+Theorem C18_count_step_spec : forall n ct v s, (0 < width ct)%Z -> in_range ct v ->
+  in_range ct (v + (Z.of_nat n - 1) * s) -> count_step_elems n ct v s = arith n v s.
+Proof. exact count_step_spec. Qed.
+Print Assumptions C18_count_step_spec.
+
+Theorem C18_count_spec : forall n ct v, (0 < width ct)%Z -> in_range ct v ->
+  (v + Z.of_nat n - 1 <= ct_max ct)%Z -> count_elems n ct v = arith n v 1.
+Proof. exact count_spec. Qed.
+Print Assumptions C18_count_spec.
+
+Theorem C18_enum_range_spec : forall ct size, (0 < width ct)%Z -> (0 <= size <= ct_max ct)%Z ->
+  enum_range ct size = arith (Z.to_nat size) 0 1 /\
+  Forall (fun v => (0 <= v < size)%Z /\ enum_is_valid size v = true) (enum_range ct size) /\
+  enum_is_valid size size = true.
+Proof. exact enum_range_spec. Qed.
+Print Assumptions C18_enum_range_spec.
+
+(** ** Span subviews = firstn / skipn of the viewed elements *)
+Theorem C18_span_first_spec : forall (A : Type) (buf : list A) s count, span_wf buf s ->
+  (0 <= count)%Z -> first_pre s count = true ->
+  span_elems buf (span_first s count) = firstn (Z.to_nat count) (span_elems buf s) /\
+  span_wf buf (span_first s count) /\ length (span_elems buf (span_first s count)) = Z.to_nat count.
+Proof. exact (@span_first_spec). Qed.
+Print Assumptions C18_span_first_spec.
+
+Theorem C18_span_last_spec : forall (A : Type) (buf : list A) s count, span_wf buf s ->
+  (0 <= count)%Z -> last_pre s count = true ->
+  span_elems buf (span_last s count) = skipn (Z.to_nat (span_size s - count)) (span_elems buf s) /\
+  span_wf buf (span_last s count) /\ length (span_elems buf (span_last s count)) = Z.to_nat count.
+Proof. exact (@span_last_spec). Qed.
+Print Assumptions C18_span_last_spec.
+
+Theorem C18_span_subspan_spec : forall (A : Type) (buf : list A) s offset count, span_wf buf s ->
+  (0 <= offset)%Z -> (0 <= count)%Z -> std_subspan_pre s offset count = true ->
+  span_elems buf (span_subspan s offset count)
+    = firstn (Z.to_nat (subspan_count s offset count)) (skipn (Z.to_nat offset) (span_elems buf s)) /\
+  span_wf buf (span_subspan s offset count) /\
+  span_size (span_subspan s offset count) = subspan_count s offset count.
+Proof. exact (@span_subspan_spec). Qed.
+Print Assumptions C18_span_subspan_spec.
+
+Theorem C18_subspan_pre_explicit_count : forall s offset count, (0 <= span_size s)%Z ->
+  (0 <= offset)%Z -> (0 <= count)%Z -> count <> dynamic_extent -> (offset + count < size_mod)%Z ->
+  subspan_pre s offset count = std_subspan_pre s offset count.
+Proof. exact subspan_pre_explicit_count. Qed.
+Print Assumptions C18_subspan_pre_explicit_count.
+
+(** the CELER_EXPECT of subspan(offset, count = dynamic_extent) wraps: it rejects the valid
+    subspan(0) and accepts the invalid subspan(size()+1) (result size 2^64-1), for every size *)
+Theorem C18_subspan_pre_default_count_refuted : forall p n, (0 <= n < dynamic_extent)%Z ->
+  let s : span := (p, n) in
+  (std_subspan_pre s 0 dynamic_extent = true /\ subspan_pre s 0 dynamic_extent = false) /\
+  (std_subspan_pre s (n + 1) dynamic_extent = false /\ subspan_pre s (n + 1) dynamic_extent = true /\
+   span_size (span_subspan s (n + 1) dynamic_extent) = dynamic_extent) /\
+  (forall offset, (1 <= offset <= n)%Z -> subspan_pre s offset dynamic_extent = true).
+Proof. exact subspan_pre_default_count_refuted. Qed.
+Print Assumptions C18_subspan_pre_default_count_refuted.
+
 (** ** indexers *)
 Theorem C18_hyperslab_bijective : forall dims, dims <> [] -> Forall (lt 0) dims ->
   (forall coords, coords_valid dims coords ->
@@ -130,6 +235,86 @@ Theorem C18_ragged_right_bijective : forall offsets, 2 <= length offsets -> offs
      ragged_index offsets c = index).
 Proof. exact ragged_right_bijective. Qed.
 Print Assumptions C18_ragged_right_bijective.
+
+(** ** scalar helpers of Algorithms.hh: integers (Z, unsigned wrap-around explicit) *)
+Theorem C18_all_any_spec : forall (A : Type) (p : A -> bool) (l : list A),
+  all_of p l = forallb p l /\ any_of p l = existsb p l.
+Proof. exact all_any_spec. Qed.
+Print Assumptions C18_all_any_spec.
+
+Theorem C18_all_adjacent_spec : forall (A : Type) (d : A) (p : A -> A -> bool) (l : list A),
+  all_adjacent p l = true <-> (forall i, S i < length l -> p (nth i l d) (nth (S i) l d) = true).
+Proof. exact all_adjacent_spec. Qed.
+Print Assumptions C18_all_adjacent_spec.
+
+Theorem C18_imin_imax_spec : forall a b : Z, m_imin a b = Z.min a b /\ m_imax a b = Z.max a b.
+Proof. exact imin_imax_spec. Qed.
+Print Assumptions C18_imin_imax_spec.
+
+Theorem C18_iclamp_spec : forall v lo hi : Z, (lo <= hi)%Z ->
+  m_iclamp v lo hi = Z.min hi (Z.max lo v) /\ (lo <= m_iclamp v lo hi <= hi)%Z.
+Proof. exact iclamp_spec. Qed.
+Print Assumptions C18_iclamp_spec.
+
+Theorem C18_isignum_spec : forall x : Z, m_isignum x = Z.sgn x.
+Proof. exact isignum_spec. Qed.
+Print Assumptions C18_isignum_spec.
+
+Theorem C18_fma_u_spec : forall w a b y, (0 <= a)%Z -> (0 <= b)%Z -> (0 <= y)%Z ->
+  ((a * b + y < 2 ^ w)%Z -> m_fma_u w a b y = (a * b + y)%Z) /\
+  ((0 < w)%Z -> (0 <= m_fma_u w a b y < 2 ^ w)%Z).
+Proof. exact fma_u_spec. Qed.
+Print Assumptions C18_fma_u_spec.
+
+Theorem C18_negate_u_spec : forall w v, (0 < w)%Z -> (0 <= v < 2 ^ w)%Z ->
+  m_negate_u w v = (if (v =? 0)%Z then 0 else 2 ^ w - v)%Z /\ m_negate_u w (m_negate_u w v) = v.
+Proof. exact negate_u_spec. Qed.
+Print Assumptions C18_negate_u_spec.
+
+Theorem C18_diffsq_u_spec : forall w a b, (0 < w)%Z -> m_diffsq_u w a b = ((a * a - b * b) mod 2 ^ w)%Z.
+Proof. exact diffsq_u_spec. Qed.
+Print Assumptions C18_diffsq_u_spec.
+
+(** ceil_div in a w-bit unsigned type is the exact ceiling for EVERY representable top (no
+    overflow near 2^w - 1, unlike (top + bottom - 1) / bottom) *)
+Theorem C18_ceil_div_u_spec : forall w top bottom, (0 <= top < 2 ^ w)%Z -> (1 <= bottom)%Z ->
+  m_ceil_div_u w top bottom = Z.of_nat (ceil_div (Z.to_nat top) (Z.to_nat bottom)) /\
+  (m_ceil_div_u w top bottom <= top)%Z.
+Proof. exact ceil_div_u_spec. Qed.
+Print Assumptions C18_ceil_div_u_spec.
+
+Theorem C18_ipow_u_spec : forall w n v, (0 < w)%Z ->
+  ipow (1 mod 2 ^ w)%Z (mul_u w) n v = ((v ^ Z.of_nat n) mod 2 ^ w)%Z.
+Proof. exact ipow_u_spec. Qed.
+Print Assumptions C18_ipow_u_spec.
+
+(** binary64 facts (PrimFloat): negate never returns -0; min/max ignore NaN; signum(NaN) = 0 *)
+Theorem C18_negate_no_signed_zero :
+  FloatOps.Prim2SF (m_negate PrimFloat.zero) = SpecFloat.S754_zero false /\
+  FloatOps.Prim2SF (m_negate PrimFloat.neg_zero) = SpecFloat.S754_zero false /\
+  FloatOps.Prim2SF (PrimFloat.opp PrimFloat.zero) = SpecFloat.S754_zero true.
+Proof. exact negate_no_signed_zero. Qed.
+Print Assumptions C18_negate_no_signed_zero.
+
+Theorem C18_fmin_fmax_nan : forall x : PrimFloat.float,
+  (m_fmin PrimFloat.nan x = x /\ m_fmax PrimFloat.nan x = x) /\
+  (PrimFloat.eqb x x = true -> m_fmin x PrimFloat.nan = x /\ m_fmax x PrimFloat.nan = x).
+Proof. exact fmin_fmax_nan. Qed.
+Print Assumptions C18_fmin_fmax_nan.
+
+Theorem C18_signum_clamp_nan :
+  m_signum PrimFloat.nan = 0%Z /\ PrimFloat.is_nan (m_clamp_to_nonneg PrimFloat.nan) = true /\
+  m_signum PrimFloat.neg_zero = 0%Z /\ m_signum PrimFloat.neg_infinity = (-1)%Z /\
+  m_signum PrimFloat.infinity = 1%Z.
+Proof. exact signum_clamp_nan. Qed.
+Print Assumptions C18_signum_clamp_nan.
+
+(** in binary64 eumod can return denom itself (r + denom rounds up), outside [0, |denom|) *)
+Theorem C18_eumod_rounds_to_denom_refuted : exists r d : PrimFloat.float,
+  PrimFloat.ltb r PrimFloat.zero = true /\ PrimFloat.ltb PrimFloat.zero d = true /\
+  PrimFloat.ltb (PrimFloat.opp d) r = true /\ m_eumod_r r d = d.
+Proof. exact eumod_rounds_to_denom_refuted. Qed.
+Print Assumptions C18_eumod_rounds_to_denom_refuted.
 
 (** ** grids (instance R of coq/C18/Grids.v) *)
 Local Open Scope R_scope.
@@ -210,3 +395,52 @@ Theorem C18_twod_bilinear_at_nodes : forall (xs ys vals : list R) i j,
   twod xs ys vals (get 0 xs i) (get 0 ys j) = get 0 vals (i * length ys + j).
 Proof. exact twod_at_nodes. Qed.
 Print Assumptions C18_twod_bilinear_at_nodes.
+
+(** ** scalar helpers of Algorithms.hh over R *)
+Theorem C18_clamp_spec : forall v lo hi : R, clamp_pre lo hi = true ->
+  lo <= m_clamp v lo hi <= hi /\ (lo <= v <= hi -> m_clamp v lo hi = v) /\
+  m_clamp v lo hi = Rmin hi (Rmax lo v).
+Proof. exact clamp_spec. Qed.
+Print Assumptions C18_clamp_spec.
+
+Theorem C18_clamp_to_nonneg_spec : forall v : R,
+  m_clamp_to_nonneg v = Rmax 0 v /\ 0 <= m_clamp_to_nonneg v.
+Proof. exact clamp_to_nonneg_spec. Qed.
+Print Assumptions C18_clamp_to_nonneg_spec.
+
+Theorem C18_fmin_fmax_spec : forall a b : R, m_fmin a b = Rmin a b /\ m_fmax a b = Rmax a b.
+Proof. exact fmin_fmax_spec. Qed.
+Print Assumptions C18_fmin_fmax_spec.
+
+Theorem C18_fastpow_spec : forall a b : R, 0 < a ->
+  fastpow_pre a b = true /\ m_fastpow a b = Rpower a b /\
+  (forall n : nat, m_fastpow a (INR n) = a ^ n).
+Proof. exact fastpow_spec. Qed.
+Print Assumptions C18_fastpow_spec.
+
+Theorem C18_negate_spec : forall v : R,
+  m_negate v = - v /\ m_negate (m_negate v) = v /\ m_negate 0 = 0.
+Proof. exact negate_spec. Qed.
+Print Assumptions C18_negate_spec.
+
+Theorem C18_diffsq_spec : forall a b : R, m_diffsq a b = a * a - b * b.
+Proof. exact diffsq_spec. Qed.
+Print Assumptions C18_diffsq_spec.
+
+Theorem C18_signum_spec : forall x : R,
+  (m_signum x = 1%Z <-> 0 < x) /\ (m_signum x = 0%Z <-> x = 0) /\ (m_signum x = (-1)%Z <-> x < 0) /\
+  x = IZR (m_signum x) * Rabs x.
+Proof. exact signum_spec. Qed.
+Print Assumptions C18_signum_spec.
+
+Theorem C18_rsqrt_spec : forall x : R, 0 < x ->
+  m_rsqrt x = / sqrt x /\ 0 < m_rsqrt x /\ m_rsqrt x * m_rsqrt x * x = 1.
+Proof. exact rsqrt_spec. Qed.
+Print Assumptions C18_rsqrt_spec.
+
+(** eumod with the exact fmod: result in [0, |denom|) and congruent to numer modulo denom *)
+Theorem C18_eumod_spec : forall numer denom : R, denom <> 0 ->
+  let r := m_eumod Rfmod numer denom in
+  0 <= r < Rabs denom /\ exists k : Z, numer = r + IZR k * denom.
+Proof. exact eumod_spec. Qed.
+Print Assumptions C18_eumod_spec.
